@@ -18,6 +18,7 @@ import (
 	"crypto/tls"
 	"crypto/x509"
 	"crypto/x509/pkix"
+	"errors"
 	"fmt"
 	"io"
 	"math/big"
@@ -196,9 +197,13 @@ func evalTLSv(version uint16, names []string, rp, wp pconn.Plan, closeAfter bool
 	var S []*pconn.Item
 	var cum []int
 	okOnFault := -1
+	spunAt := -1
 	for i, it := range stream {
 		w0 := wc.Writes
 		err := pconn.Send(ctx, tx, it.Env)
+		if errors.Is(err, pconn.ErrSpin) && spunAt < 0 {
+			spunAt = i
+		}
 		if err == nil {
 			S = append(S, it)
 			cum = append(cum, len(pendSrv)+len(wc.Out))
@@ -221,6 +226,9 @@ func evalTLSv(version uint16, names []string, rp, wp pconn.Plan, closeAfter bool
 	mk := func(clause, msg string) *failure {
 		return &failure{side: side, clause: clause, class: class, msg: msg, in: in,
 			cost: [3]int{len(rp) + len(wp), len(raw), sumN(rp) + sumN(wp)}}
+	}
+	if spunAt >= 0 {
+		return mk("send-never-returns", fmt.Sprintf("Send #%d did not return on a connection that never blocks: it keeps retrying a write that TLS has given up for good", spunAt)), nil
 	}
 	if okOnFault >= 0 {
 		return mk("send-ok-on-fault", fmt.Sprintf("Send #%d returned nil although a hard error / cancelled context was served", okOnFault)), nil
